@@ -3,10 +3,12 @@ package rendezvous
 import (
 	"context"
 	"fmt"
+	"io"
 	"net"
 	"net/http"
 	"net/http/httptest"
 	"strings"
+	"sync/atomic"
 	"time"
 	"unicode/utf8"
 
@@ -51,7 +53,28 @@ func (s *E2ESystem) Config() map[string]any {
 }
 func (s *E2ESystem) Events() []core.Event { return nil }
 
+// cutRT delivers a request and then, when armed, reports the connection as cut instead of handing the answer
+// back: the peer has executed the request, the caller learns nothing.
+type cutRT struct {
+	base  http.RoundTripper
+	armed atomic.Int32
+	cuts  atomic.Int32
+}
+
+func (c *cutRT) RoundTrip(req *http.Request) (*http.Response, error) {
+	resp, err := c.base.RoundTrip(req)
+	if c.armed.Load() > 0 && err == nil {
+		c.armed.Add(-1)
+		c.cuts.Add(1)
+		io.Copy(io.Discard, resp.Body)
+		resp.Body.Close()
+		return nil, fmt.Errorf("verif: connection reset by peer (cut after the request was delivered)")
+	}
+	return resp, err
+}
+
 type e2eInst struct {
+	cut     []*cutRT
 	s       *E2ESystem
 	pools   []*pool.PeerPool
 	servers []*httptest.Server
@@ -91,7 +114,9 @@ func (s *E2ESystem) New() core.Instance {
 		in.nets = append(in.nets, n)
 		// test plumbing: the node's own forwarding client keeps its settings, only the dialer is replaced
 		hc := core.Field(p, "httpClient").Interface().(*http.Client)
-		hc.Transport = &http.Transport{DialContext: dial, DisableKeepAlives: false, MaxIdleConnsPerHost: 4, IdleConnTimeout: 2 * time.Second}
+		crt := &cutRT{base: &http.Transport{DialContext: dial, DisableKeepAlives: false, MaxIdleConnsPerHost: 4, IdleConnTimeout: 2 * time.Second}}
+		hc.Transport = crt
+		in.cut = append(in.cut, crt)
 		p.RegisterHandlers(muxes[i])
 		in.pools = append(in.pools, p)
 	}
@@ -117,7 +142,7 @@ func (in *e2eInst) holders(sub string) []int {
 func (in *e2eInst) Apply(ev core.Event) map[string]any {
 	op := ev["op"].(string)
 	switch op {
-	case "serve":
+	case "serve", "servecut":
 		entry := toInt(ev["entry"])
 		subs := toInts(ev["subs"])
 		n := len(subs)
@@ -128,7 +153,11 @@ func (in *e2eInst) Apply(ev core.Event) map[string]any {
 		for i, si := range subs {
 			sub := in.s.subs[si-1]
 			ctx, cancel := context.WithTimeout(context.Background(), 10*time.Second)
+			if op == "servecut" {
+				in.cut[entry-1].armed.Store(1)
+			}
 			resp, err := in.pools[entry-1].Allocate(ctx, sub, nil)
+			in.cut[entry-1].armed.Store(0)
 			cancel()
 			if err == nil && resp != nil {
 				ok[i] = true
@@ -215,6 +244,19 @@ func GenE2EEvents(k, nsubs, down int) []core.Event {
 	var all []int
 	for i := 1; i <= k; i++ {
 		all = append(all, i)
+	}
+	// the first subscribers of the block are first asked for through a connection that is cut once the request
+	// has been delivered (one cut is below every health threshold: all nodes stay healthy in every view)
+	ncut := 12
+	if ncut > half {
+		ncut = half
+	}
+	var cutSubs []int
+	for s := 1; s <= ncut; s++ {
+		cutSubs = append(cutSubs, s)
+	}
+	for _, e := range all {
+		evs = append(evs, core.Event{"op": "servecut", "entry": e, "subs": cutSubs[(e-1)*len(cutSubs)/len(all) : e*len(cutSubs)/len(all)]})
 	}
 	batch(1, half, all)
 	if down > 0 {
